@@ -168,16 +168,28 @@ class Check(BaseCheck):
                 if not r.startswith("ok"):
                     fails.append(core.Failure("correspondence", "history vs model", "driver: " + r[:80], case)); continue
                 steps = r.split(" | ")[1:]
+                illcond = False
                 for j, (s, mstep) in enumerate(zip(snaps, steps)):
                     rr = wire.Reply("ok " + mstep)
                     mv = rr.v3s(); nt = rr.nat(); mt = np.array([[rr.nat(), rr.nat(), rr.nat()] for _ in range(nt)], dtype=np.int64).reshape(-1, 3)
                     msym = parse_canon(rr); mdir = parse_canon(rr)
-                    ok = (s["t"].shape == mt.shape and np.array_equal(s["t"], mt) and s["v"].shape == mv.shape
-                          and np.allclose(s["v"], mv, rtol=1e-9, atol=1e-9 * max(1.0, float(np.nanmax(np.abs(mv))) if np.isfinite(mv).any() else 1.0), equal_nan=True)
-                          and s["sym"] == msym and s["dir"] == mdir)
-                    if not ok:
-                        fails.append(core.Failure("correspondence", "history vs model", "%s after step %d of %s (err=%s): t equal %s, adjacency equal %s/%s" % (
-                            name, j + 1, [op_token(o) for o in seq], s["err"], s["t"].shape == mt.shape and np.array_equal(s["t"], mt), s["sym"] == msym, s["dir"] == mdir), case))
+                    topo_ok = (s["t"].shape == mt.shape and np.array_equal(s["t"], mt) and s["v"].shape == mv.shape and s["sym"] == msym and s["dir"] == mdir)
+                    scale = max(1.0, float(np.nanmax(np.abs(mv))) if np.isfinite(mv).any() else 1.0)
+                    v_ok = s["v"].shape == mv.shape and np.allclose(s["v"], mv, rtol=1e-6, atol=1e-6 * scale, equal_nan=True)
+                    if not illcond:
+                        # vertex-only operations on (nearly) degenerate meshes amplify rounding (normalize_ divides by sqrt(area),
+                        # normal_offset_ normalises vanishing vertex normals): from the first degenerate state on, coordinates are
+                        # not judged any more; connectivity and adjacency still are
+                        with np.errstate(all="ignore"):
+                            tv = s["v"][s["t"]] if len(s["t"]) else np.zeros((0, 3, 3))
+                            ar = np.linalg.norm(np.cross(tv[:, 1] - tv[:, 0], tv[:, 2] - tv[:, 0]), axis=1)
+                            ext = np.nanmax(np.abs(s["v"])) if np.isfinite(s["v"]).any() else 0.0
+                        if not np.all(np.isfinite(s["v"])) or ar.size == 0 or np.nanmin(ar) < 1e-9 * max(ext, 1e-300) ** 2:
+                            illcond = True
+                            stats.monitor("histories whose coordinates became ill-conditioned (connectivity still compared)")
+                    if not topo_ok or (not v_ok and not illcond):
+                        fails.append(core.Failure("correspondence", "history vs model", "%s after step %d of %s (err=%s): t equal %s, adjacency equal %s/%s, v ok %s" % (
+                            name, j + 1, [op_token(o) for o in seq], s["err"], s["t"].shape == mt.shape and np.array_equal(s["t"], mt), s["sym"] == msym, s["dir"] == mdir, v_ok), case))
                         break
                 if len(fails) > 6:
                     return fails
